@@ -483,7 +483,7 @@ impl<'s> ProguardMapper<'s> {
         let exception = trace
             .exception
             .as_ref()
-            .and_then(|t| self.remap_throwable(t));
+            .map(|t| self.remap_throwable(t).unwrap_or_else(|| t.clone()));
 
         let frames =
             trace
